@@ -4,6 +4,7 @@ pub mod c05;
 pub mod c06;
 pub mod c07;
 pub mod c08;
+pub mod c09;
 pub mod c13;
 pub mod c15;
 pub mod c16;
@@ -21,6 +22,7 @@ pub fn table() -> Vec<(&'static str, PropFn)> {
         ("C06", c06::run as PropFn),
         ("C07", c07::run as PropFn),
         ("C08", c08::run_prop as PropFn),
+        ("C09", c09::run as PropFn),
         ("C13", c13::run as PropFn),
         ("C15", c15::run as PropFn),
         ("C16", c16::run as PropFn),
